@@ -48,6 +48,20 @@ PROBES = {
             expect="terminal-twice",
             collateral=("sibling-progress-after-failure", "appended-after-end", "history-terminal-event",
                         "exited-without-entered", "outcome-mismatch", "leak")),
+        # the failure of an INNER fan-out that its own Catch handles must leave the healthy branch of the OUTER
+        # fan-out alone; check_pending_results cancels the pending Tasks of every result set of the execution
+        "caught-inner-failure-cancels-healthy-outer-branch": dict(
+            scenario=scn({"StartAt": "O", "States": {"O": {"Type": "Parallel", "End": True, "Branches": [
+                {"StartAt": "I", "States": {
+                    "I": {"Type": "Parallel", "Branches": [
+                        {"StartAt": "X", "States": {"X": T("bad", End=True)}},
+                        {"StartAt": "Y", "States": {"Y": T("slowi", End=True)}}],
+                        "Catch": [{"ErrorEquals": ["States.ALL"], "ResultPath": "$.err", "Next": "H"}], "End": True},
+                    "H": {"Type": "Pass", "Result": "handled", "ResultPath": "$.h", "End": True}}},
+                {"StartAt": "B", "States": {"B": T("slow", End=True)}}]}}},
+                {"k": 1}, {"bad": [{"err": "E.Alpha", "msg": "m", "delay": 1.0}], "slow": [{"ok": {"op": "tag"}, "delay": 5.0}],
+                           "slowi": [{"ok": {"op": "tag"}, "delay": 3.0}]}, {"execution_ttl": 60}),
+            expect="outcome-mismatch", collateral=("sibling-progress-after-failure",)),
     },
 }
 
